@@ -1113,7 +1113,87 @@ def checked_arith(ip, st, ci):
     raise Undecided("%s on %s,%s" % (op, a[0], b[0]))
 
 
-@prim("::saturating_add", "::saturating_sub", "::saturating_mul", "::rotate_left", "::rotate_right", "::swap_bytes", "::reverse_bits", "::pow", "::leading_zeros")
+@prim("core::slice::<impl [T]>::rotate_left", "core::slice::<impl [T]>::rotate_right")
+def slice_rotate(ip, st, ci):
+    tg = tg_of(ci["args"][0])
+    k = ci["args"][1]
+    esz = ip.sizeof(crate(ci), fn_targs(ci)[0])
+    total = ip.tlen(st, tg)
+    kb = k[1] * esz
+    ok = st.F.prove_ge(kb) and st.F.prove_ge(total - kb)
+    oblig(st, ci, "bounds:rotate", ok, "%r <= %r" % (kb, total))
+    if not ok:
+        st.F.add_ge(kb)
+        st.F.add_ge(total - kb)
+    v = ip.load(st, ip.br(tg, ZERO, total))[1]
+    if ci["fn"]["name"] == "rotate_left":
+        nv = T.bnorm(T.bslice(v, kb, total - kb, st.F) + T.bslice(v, ZERO, kb, st.F), st.F)
+    else:
+        nv = T.bnorm(T.bslice(v, total - kb, kb, st.F) + T.bslice(v, ZERO, total - kb, st.F), st.F)
+    ip.store(st, ip.br(tg, ZERO, total), vbytes(nv))
+    return vunit()
+
+
+@prim("core::slice::<impl [T]>::split_at_mut_checked", "core::slice::<impl [T]>::split_at_checked")
+def split_at_checked(ip, st, ci):
+    tg = tg_of(ci["args"][0])
+    mid = ci["args"][1]
+    esz = ip.sizeof(crate(ci), fn_targs(ci)[0])
+    total = ip.tlen(st, tg)
+    m = mid[1] * esz
+    out = []
+    for s2, fits in fork_on(st, ("ge", total - m)):
+        if fits:
+            out.append((s2, vsome(("tuple", [vref(ip.br(tg, ZERO, m)), vref(ip.br(tg, m, total - m))]))))
+        else:
+            out.append((s2, vnone()))
+    return out
+
+
+@prim("core::slice::<impl [T]>::fill")
+def slice_fill(ip, st, ci):
+    tg = tg_of(ci["args"][0])
+    v = ci["args"][1]
+    total = ip.tlen(st, tg)
+    if v[0] == "bytes" and T.blen(v[1]) == ONE:
+        j = T.fresh("$f")
+        ip.store(st, ip.br(tg, ZERO, total), vbytes(T.bnorm((("m", j, ZERO, total, ONE, v[1]),), st.F)))
+        return vunit()
+    raise Undecided("fill with %s" % v[0])
+
+
+@prim("from_fn")
+def array_from_fn(ip, st, ci):
+    """Array::from_fn(|i| ..) / core::array::from_fn: element i is the callback's result for i."""
+    from .loops import summarise_call_loop
+    cr = crate(ci)
+    dty = dest_ty(ip, ci)
+    if not ip.is_bytes_ty(cr, dty):
+        raise Undecided("from_fn for a non-array type")
+    esz = ip.sizeof(cr, ip.elem_ty(cr, dty))
+    total = ip.sizeof(cr, dty)
+    n = count_of(st, total, esz)
+    clo = ci["args"][0]
+    cell = ("tmp", "from_fn%d" % len(st.heap))
+    st.heap[cell] = vbytes(T.bzero(total))
+
+    def runner(s, idx):
+        out = []
+        res = _call_closure(ip, s, ci, clo, [vsize(idx)]) if clo[0] == "closure" else None
+        if res is None:
+            raise Undecided("from_fn with %s callback" % clo[0])
+        for s2, r in res:
+            r = ip.encode(s2, r)
+            if r[0] != "bytes":
+                raise Undecided("from_fn element is %s" % r[0])
+            ip.store(s2, Target(cell, (("br", lin(idx) * esz, esz),)), r)
+            out.append(s2)
+        return out
+    states = summarise_call_loop(ip, st, ci["fr"], n, runner)
+    return [(s, s.heap[cell]) for s in states]
+
+
+@prim("core::num::<impl u8>::rotate_left", "::saturating_add", "::saturating_sub", "::saturating_mul", "::swap_bytes", "::reverse_bits", "::pow", "::leading_zeros")
 def int_opaque(ip, st, ci):
     a = ci["args"][0]
     op = ci["fn"]["name"]
